@@ -250,6 +250,11 @@ def compare_python(py_payload, impl_payload, line, model_payload=None):
     if ps == "exc":
         return ["Python raised %s where the Rust API returns a value" % P.get("exc")]
     for k, v in P.items():
+        if k == "exc" and M.get("checked") == "*":
+            # structure not determined by the model (expression out of a diagram): the Rust answer decides
+            rust_missing = I.get("checked", "").startswith("missing")
+            if (v == "KeyError") != rust_missing: why.append("exception %s, Rust checked evaluation %s" % (v, I.get("checked")))
+            continue
         if k == "exc":
             w = want if want not in (None, "none") else None
             if want == "none" and v != "none": why.append("exception %s where the model of the Python layer returns a value" % v)
